@@ -411,7 +411,7 @@ func ruleInitCapturedWrite(c *Ctx, rule string) {
 // but unregistered is reused by the next Invoke and cannot be aborted.
 func ruleUnregisterClears(c *Ctx, rule string, pf *poolFacts) {
 	l := c.L
-	_, fChild := l.structField(modPath, "Invoker", "child")
+	_, fChild := l.invokerVMFields()
 	if !c.Anchor(rule, "Invoker.child", fChild >= 0) {
 		return
 	}
@@ -714,4 +714,55 @@ func savedIPField(vf *vmFacts, i int) bool {
 		})
 	}
 	return found
+}
+
+// ---- C02/try-end-pop (also C10) ------------------------------------------------------------------------------------
+// Handlers of try statements are addressed by their index on the frame's
+// handler stack (OpFinalizer carries the static nesting depth), so the stack
+// depth must equal the static depth: the instruction that ends a try statement
+// pops the statement's handler also on the path with no pending error and no
+// pending return.  A consumed handler left behind shifts the indexes of every
+// later try statement of the frame: `break` inside a nested try then runs the
+// outer finally prematurely, and `return` inside try is lost when the finally
+// block contains another try.
+func ruleTryEndPop(c *Ctx, rule string) {
+	l := c.L
+	xt := l.Method(modPath, "VM", "xOpThrow")
+	pop := l.Method(modPath, "errHandlers", "pop")
+	hasErr := l.Method(modPath, "errHandlers", "hasError")
+	hasRet := l.Method(modPath, "errHandlers", "hasReturnTo")
+	if !c.Anchor(rule, "VM.xOpThrow / errHandlers.pop / errHandlers.hasError", xt != nil && pop != nil && hasErr != nil) {
+		return
+	}
+	// the fall-through path: hasError() false and no throw / jump taken: blocks
+	// whose guards contain hasError()==false and that contain a pop
+	found := false
+	eachInstr(xt, func(ins ssa.Instruction) {
+		cl, ok := ins.(*ssa.Call)
+		if !ok || cl.Call.StaticCallee() != pop {
+			return
+		}
+		noErr, noReturnTo := false, false
+		for _, g := range guardEdges(cl.Block()) {
+			if hc, ok := g.If.Cond.(*ssa.Call); ok && hc.Call.StaticCallee() == hasErr && !g.Truth {
+				noErr = true
+			}
+		}
+		// the pending-return position is known to be <= 0 here (whatever form
+		// the comparison has: `pos > 0` false, `pos <= 0` true, ...)
+		if hasRet != nil {
+			eachInstr(xt, func(x ssa.Instruction) {
+				if rc, ok := x.(*ssa.Call); ok && rc.Call.StaticCallee() == hasRet {
+					if r := rangeAt(rc, cl.Block(), ptrBitsOf(l)); r.hi <= 0 {
+						noReturnTo = true
+					}
+				}
+			})
+		}
+		if noErr && noReturnTo {
+			found = true
+		}
+	})
+	c.Check(rule, "VM.xOpThrow | end of a try statement without pending error or return", l.Pos(xt.Pos()), found, "the statement's handler is popped",
+		"the instruction that ends a try statement leaves the consumed handler on the frame when nothing is pending: later try statements of the frame are addressed one index off (break in a nested try runs the outer finally early; return inside try is lost when its finally block contains a try)")
 }
